@@ -318,6 +318,11 @@ class ST:
     def __vc_len__(self, I):
         return self.shape[0]
 
+    def __vc_isinstance__(self, I, ts):
+        import torch
+
+        return any(k is torch.Tensor or (k is torch.LongTensor and self.dtype == "long") or (k is torch.FloatTensor and self.dtype == "float") for k in ts)
+
     def __vc_unpack__(self, I, n):
         raise Unsupported("unpacking a symbolic-shape tensor")
 
@@ -502,6 +507,41 @@ def _matmul(I, a, b):
     I.ex.assume(z3.ForAll([i_, n_, j_], step(i_, n_, j_)))
     I.ex.ghost.setdefault("sums", []).append({"S": S, "base": base, "step": step, "T": T, "term": term})
     return ST((a.shape[0], b.shape[1]), lambda i, n: S(to_z3(i), to_z3(n), T), "float")
+
+
+@meth("view", "reshape")
+def _view(I, t, *shape):
+    """only the re-shapes that insert / drop unit dimensions (what the verified functions use on symbolic shapes)"""
+    if len(shape) == 1 and isinstance(shape[0], (tuple, list)):
+        shape = tuple(shape[0])
+    nonunit_old = [(i, d) for i, d in enumerate(t.shape) if not (isinstance(d, int) and d == 1)]
+    new = list(shape)
+    if sum(1 for d in new if isinstance(d, int) and d == -1) > 1:
+        raise PyRaise("RuntimeError", "only one dimension can be inferred")
+    nonunit_new = [(i, d) for i, d in enumerate(new) if not (isinstance(d, int) and d == 1)]
+    if len(nonunit_new) != len(nonunit_old):
+        raise Unsupported("view that merges or splits symbolic dimensions")
+    for (i, d), (i2, d2) in zip(nonunit_new, nonunit_old):
+        if isinstance(d, int) and d == -1:
+            new[i] = d2
+        elif not dim_eq(d, d2):
+            I.ex.oblige("view.sizes_agree", to_z3(d) == to_z3(d2))
+    e = t.elem
+    old_pos = [i2 for i2, _ in nonunit_old]
+    new_pos = [i for i, _ in nonunit_new]
+
+    def elem(*idx):
+        full = [0] * len(t.shape)
+        for a_, b_ in zip(new_pos, old_pos):
+            full[b_] = idx[a_]
+        return e(*full)
+
+    return ST(tuple(new), elem, t.dtype)
+
+
+@meth("view_as")
+def _view_as(I, t, o):
+    return _view(I, t, *o.shape)
 
 
 @meth("sum")
